@@ -675,7 +675,12 @@ func (x *explorer) step(s *PState) []succ {
 				if holds != pol {
 					continue
 				}
-				out = append(out, succ{n: n.Succ[i], st: copyStore(st), facts: s.Facts, labels: append([]Label{}, labels...)})
+				ls := append([]Label{}, labels...)
+				if a.Key != "true" {
+					// decided by knowledge carried in the store: the fact still holds here
+					ls = append(ls, Label{Kind: "atom", Key: a.Key, Pol: a.Pol == pol, T: rt, Node: n})
+				}
+				out = append(out, succ{n: n.Succ[i], st: copyStore(st), facts: s.Facts, labels: ls})
 				continue
 			}
 			est := Atom{Key: a.Key, Pol: a.Pol == pol}
